@@ -442,9 +442,7 @@ Record dialect := mkDia {
   dia_lastindexof : val -> Z -> option (option Z);
   dia_fill : bool;            (* result arrays get own undefined elements in place of holes *)
   dia_reduce_empty : bool;    (* reduce/reduceRight without initial value on an array with no element: undefined instead of TypeError *)
-  dia_rr_str : bool;          (* reduceRight passes the index as a string *)
-  dia_splice0 : bool;         (* splice() with no argument removes everything *)
-  dia_rev_del_first : bool    (* reverse, lower absent/upper present: Delete before Put *)
+  dia_rr_str : bool           (* reduceRight passes the index as a string *)
 }.
 
 Definition es5 : dialect :=
@@ -453,7 +451,7 @@ Definition es5 : dialect :=
         (fun v b => option_map (fun r => clamp_cnt r b) (to_integer v))
         (fun v len => option_map (fun r => clamp_indexof r len) (to_integer v))
         (fun v len => option_map (fun r => clamp_lastindexof r len) (to_integer v))
-        false false false false false.
+        false false false.
 
 Section Methods.
 Variable D : dialect.
@@ -605,8 +603,7 @@ Definition m_reverse (args : list marg) : M rv :=
     ue <- m_has (KI upper) ;;
     if le && ue then m_put (KI lower) uv ;;; m_put (KI upper) lv
     else if ue then
-      (if dia_rev_del_first D then m_del (KI upper) ;;; m_put (KI lower) uv
-       else m_put (KI lower) uv ;;; m_del (KI upper))
+      m_put (KI lower) uv ;;; m_del (KI upper)
     else if le then m_del (KI lower) ;;; m_put (KI upper) lv
     else ret tt) ;;;
   ret RThis.
@@ -649,7 +646,7 @@ Definition m_splice (args : list marg) : M rv :=
   sv <- arg_val (nth_arg args 0) ;;
   start <- opt_m (dia_rel D sv len) ;;
   dc <- (match args with
-         | [] => ret (if dia_splice0 D then len - start else 0)
+         | [] => ret 0
          | [_] => ret (len - start)
          | _ => dv <- arg_val (nth_arg args 1) ;; opt_m (dia_cnt D dv (len - start))
          end) ;;
